@@ -248,6 +248,16 @@ def convert_and_export(c, sgy, d):
         write_segy_sgz(sgy, sgz, bpv=c['bpv'], blockshape=bs, header_detection=hd)
         del _created[:]
         with SgzConverter(sgz) as conv:
+            # what the same object served before must not matter (D46/D47): a tracefield grid (leaves the header memo in
+            # the padded mode on irregular files), a regenerated header, or an earlier export of the same file
+            hist = c['dseed'] % 4
+            if hist == 1 and conv.stored_header_keys:
+                conv.get_tracefield_values(conv.stored_header_keys[-1])
+            elif hist == 2:
+                conv.gen_trace_header(conv.tracecount - 1)
+            elif hist == 3:
+                quiet(conv.convert_to_segy, out + '.first')
+                os.remove(out + '.first')
             quiet(conv.convert_to_segy, out)
     return sgz, out
 
